@@ -17,12 +17,16 @@ RULE = ("a scenario is one world of 2 or 3 phased VCFs with up to 16 chromosomes
         "(TLC-enumerated by Gen_C11: all diploid pairs over 1-3 sites with phase sets {unphased,1,2}, with homozygous/missing "
         "records, 4-5 sites with one vs two phase sets, single blocks of 6-7 sites, diploid triples, triploid pairs over 2-3 sites, "
         "tetraploid pairs over 2 sites, diploid pairs over 2 sites with alleles 0-2; plus seeded random tuples with up to 12 sites, 4 phase sets, interleaved phase sets, "
-        "near-identical and identical phasings; and seeded noisy tetraploid/triploid single blocks of 5-7 variants with identical genotypes and 10-40 % switches/flips) and one TLC-enumerated group element (a haplotype permutation per file and phase "
+        "near-identical and identical phasings; and seeded noisy tetraploid/triploid single blocks of 5-7 variants with identical genotypes and 10-40 % switches/flips; a sample of every family and 15-30 % of the random tuples are additionally decorated with variant kinds: at some positions, "
+        "preferably inside intersection blocks, one file or every file carries ANOTHER variant at the same POS - another ALT base, an insertion, "
+        "a deletion with a longer REF - or all files carry the same non-default variant) and one TLC-enumerated group element (a haplotype permutation per file and phase "
         "set). `run_compare` is executed on the files as generated (PS / HP / implicit-PS encodings) and on the re-listed files; "
         "both runs are judged against the definitions and against each other. Non-trivial = some chromosome has an intersection "
         "block with Hamming distance > 0 and the group element is not the identity on a phase set present in the files")
 ASSUMPTIONS = [
     "TLC evaluates the brute-force definitions of Compare.tla (minimum over all haplotype correspondences / correspondence sequences)",
+    "a variant is identified by position, REF and ALT: a position at which the compared files carry different records is not a common "
+    "variant and is judged as absent from the comparison (C11_Trace.OnCommon), for a pair by the two files, for the multiway table by all files",
     "the definitions are judged on bi-allelic variants (compare_block documents haplotype strings over {0,1}); worlds with multi-allelic "
     "variants (compare opens its inputs with mav=True) are judged only by the clauses that need no further definition: Returns, "
     "IntersectionBlocks, GenotypeDiffsAreDefinition, SwitchFlipIdentity, ZeroForIdentical, PermutationInvariance",
@@ -97,13 +101,54 @@ ENCS = ["PS", "HP", "PS0"]
 
 
 def _batch(scs, p, nf, items, rng, src, mav=False):
-    """items: list of (F, g).  Pack KCHROM chromosomes per world."""
+    """items: list of (F, g) or (F, g, V).  Pack KCHROM chromosomes per world."""
     for i in range(0, len(items), KCHROM):
         part = items[i:i + KCHROM]
         enc0 = [rng.choice(ENCS) for _ in range(nf)]
         enc1 = list(enc0) if rng.random() < 0.5 else [rng.choice(ENCS) for _ in range(nf)]
         scs.append({"p": p, "nf": nf, "src": src, "mav": mav, "enc0": enc0, "enc1": enc1,
-                    "chroms": [{"F": F, "g": g} for F, g in part]})
+                    "chroms": [({"F": it[0], "g": it[1], "V": it[2]} if len(it) > 2 else {"F": it[0], "g": it[1]})
+                               for it in part]})
+
+
+# Variant kinds: what the record of a site looks like in one file.  Kind 0 is the default record; the other kinds
+# are OTHER variants anchored at the same POS (another ALT base, an insertion, a deletion with a longer REF).
+# Two files have a site in common only if they carry the same kind there (same POS, REF and ALT).
+KINDS = {False: [("A", "C"), ("A", "T"), ("A", "AT"), ("AG", "A")],
+         True: [("A", "C,G"), ("A", "T,G"), ("A", "C,AT"), ("AG", "A,CG")]}
+
+
+def _zero_kinds(F):
+    return [[0] * len(A) for A in F]
+
+
+def _with_kinds(rng, F, g):
+    """Decorate a tuple of phasings with variant kinds per file and site: at 1..n/3+1 sites (preferably sites that are
+    heterozygous and phased in every file, i.e. inside intersection blocks) either one file, or every file independently,
+    or all files alike carry another variant at that position."""
+    n, nf = len(F[0]), len(F)
+    V = _zero_kinds(F)
+    joint = [s for s in range(n) if all(A[s]["a"] and len(set(A[s]["a"])) > 1 and A[s]["b"] > 0 for A in F)]
+    pool = joint if joint and rng.random() < 0.85 else list(range(n))
+    for s in rng.sample(pool, min(len(pool), rng.randint(1, n // 3 + 1))):
+        r = rng.random()
+        if r < 0.55:
+            V[rng.randrange(nf)][s] = rng.randint(1, 3)
+        elif r < 0.8:
+            for f in range(nf):
+                V[f][s] = rng.randint(0, 3)
+        else:
+            k = rng.randint(1, 3)
+            for f in range(nf):
+                V[f][s] = k
+    return F, g, V
+
+
+def _common(F, V):
+    """the phasings restricted to the common variants: a site whose variant kind differs between the files is absent"""
+    if not V:
+        return F
+    return [[s if len({Vf[k] for Vf in V}) == 1 else {"b": 0, "a": []} for k, s in enumerate(A)] for A in F]
 
 
 def _combine(ins, gs, rng, per=1):
@@ -223,9 +268,15 @@ def scenarios(ctx):
         ins, gs = _gen(ctx, p, *a, **kw)
         notes[name] = {"tuples": len(ins), "group_elements": len(gs), "every_kth_of_the_space": kw.get("stride", 1)}
         _batch(scs, p, nf, _combine(ins, gs, rng, per), rng, name, mav=kw.get("na", 2) > 2)
+        # a sample of the same tuples again, with different variants at the same position in the files
+        extra = _combine(ins, gs, rng, 1)
+        extra = rng.sample(extra, min(len(extra), nd))
+        notes[name]["with_other_variant_at_same_position"] = len(extra)
+        _batch(scs, p, nf, [_with_kinds(rng, F, g) for F, g in extra], rng, name + "+alleles", mav=kw.get("na", 2) > 2)
 
     S012 = "{0, 1, 2}"
     per = 1 if q else 2
+    nd = KCHROM if q else 16 * KCHROM
     add("d2_n1_holes", 2, 2, per, 1, 2, S012, S012, holes=True)
     add("d2_n2_holes", 2, 2, per, 2, 2, S012, S012, holes=True)
     add("d2_n3_blocks", 2, 2, per, 3, 2, S012, S012, stride=4 if q else 1)
@@ -251,19 +302,22 @@ def scenarios(ctx):
         for _ in range(KCHROM if p == 2 else 6):
             n = rng.randint(2, 12) if p == 2 else (rng.randint(2, 6) if p == 3 else rng.randint(2, 4))
             kind = rng.choice(["random", "near", "near", "same"])
-            items.append(_rand_tuple(rng, p, nf, n, rng.randint(1, 4), kind))
+            it = _rand_tuple(rng, p, nf, n, rng.randint(1, 4), kind)
+            items.append(_with_kinds(rng, *it) if rng.random() < 0.3 else it)
         _batch(scs, p, nf, items, rng, "random")
     # noisy polyploid single blocks of 5-7 variants (tetraploid mostly): 8 blocks per world
     nn = 120 if q else 1200
     for i in range(nn):
         p = 4 if i % 4 else 3
         items = [_noisy_block(rng, p, rng.randint(5, 7)) for _ in range(8)]
+        items = [_with_kinds(rng, *it) if rng.random() < 0.15 else it for it in items]
         _batch(scs, p, 2, items, rng, "noisy_polyploid")
     ctx.notes["noisy_polyploid_blocks"] = {"worlds": nn, "blocks": 8 * nn, "ploidy4": 8 * sum(1 for i in range(nn) if i % 4)}
     nm = 10 if q else 100
     for i in range(nm):
         items = [_rand_tuple(rng, 2, 2, rng.randint(2, 6), rng.randint(1, 2), rng.choice(["random", "near", "same"]), na=3)
                  for _ in range(4)]
+        items = [_with_kinds(rng, *it) if rng.random() < 0.3 else it for it in items]
         _batch(scs, 2, 2, items, rng, "random_multiallelic", mav=True)
     # polyploid blocks with multi-allelic sites (alleles 0..2): small enough for the brute-force definitions
     npm = 30 if q else 400
@@ -271,6 +325,7 @@ def scenarios(ctx):
         pp = 3 if i % 2 else 4
         items = [_rand_tuple(rng, pp, 2, rng.randint(2, 3) if pp == 3 else 2, 1, rng.choice(["random", "near", "near"]), na=3)
                  for _ in range(4)]
+        items = [_with_kinds(rng, *it) if rng.random() < 0.3 else it for it in items]
         _batch(scs, pp, 2, items, rng, "polyploid_multiallelic", mav=True)
     ctx.notes["polyploid_multiallelic_worlds"] = npm
     ctx.notes["random_worlds"] = nr
@@ -293,17 +348,19 @@ def _apply(F, g):
     return out
 
 
-def _records(chrom, ci, f, A, enc, p, mav=False):
-    """VCF records of file f for one chromosome.  site s (1-based) -> POS 10*s."""
+def _records(chrom, ci, f, A, enc, p, mav=False, Vf=None):
+    """VCF records of file f for one chromosome.  site s (1-based) -> POS 10*s; Vf[s-1] = variant kind (REF/ALT) of the site."""
     recs = []
     ids = sorted({s["b"] for s in A if s["b"] > 0 and s["a"]})
     implicit = ids[0] if (enc == "PS0" and ids) else None
     for k, s in enumerate(A, start=1):
         a, b = s["a"], s["b"]
-        base = {"chrom": chrom, "pos": 10 * k, "ref": "A", "alt": "C,G" if mav else "C"}
+        ref, alt = KINDS[bool(mav)][Vf[k - 1] if Vf else 0]
+        base = {"chrom": chrom, "pos": 10 * k, "ref": ref, "alt": alt}
         if not a:
             if (k + f + ci) % 2 == 0:
                 continue  # no record
+            base["ref"] = "A"
             base["alt"] = "G,T" if mav else "G"  # same position, other ALT allele(s): not a common variant
             a = [0] * (p - 1) + [1]
             b = 0
@@ -350,7 +407,7 @@ def _units(txt, p):
     return int(r) if abs(v - r) < 1e-6 and r >= 0 else -1
 
 
-def _run(tmp, tag, p, nf, chroms, Fs, encs, mav=False):
+def _run(tmp, tag, p, nf, chroms, Fs, encs, mav=False, Vs=None):
     """Write the VCFs for the given chromosomes, run compare, parse all outputs.
     Returns (rows, agree, bed, multi, exc)."""
     from wv.world import write_vcf
@@ -361,7 +418,7 @@ def _run(tmp, tag, p, nf, chroms, Fs, encs, mav=False):
     for f in range(nf):
         recs = []
         for ci in chroms:
-            recs.extend(_records(f"c{ci:02d}", ci, f, Fs[ci][f], encs[f], p, mav))
+            recs.extend(_records(f"c{ci:02d}", ci, f, Fs[ci][f], encs[f], p, mav, Vs[ci][f] if Vs else None))
         path = os.path.join(tmp, f"{tag}_{f}.vcf")
         write_vcf(path, ["s1"], [(n, 1000) for n in names], recs, fmt_keys=("GT", "PS", "HP"), info_keys=(), filters=())
         files.append(path)
@@ -419,11 +476,12 @@ def _run(tmp, tag, p, nf, chroms, Fs, encs, mav=False):
     return rows, agree, bed, multi, exc
 
 
-def _events(run, p, nf, chroms, Fs, res, mav=False):
+def _events(run, p, nf, chroms, Fs, res, mav=False, Vs=None):
     rows, agree, bed, multi, exc = res
     evs = []
     for ci in chroms:
         cn = f"c{ci:02d}"
+        V = Vs[ci] if Vs else _zero_kinds(Fs[ci])
         for i in range(nf):
             for j in range(i + 1, nf):
                 key = (cn, i, j)
@@ -433,10 +491,10 @@ def _events(run, p, nf, chroms, Fs, res, mav=False):
                     continue
                 row, lrow = rows[key]
                 evs.append({"ev": "Pair", "run": run, "chrom": ci, "i": i + 1, "j": j + 1, "p": p, "mav": mav,
-                            "F": [Fs[ci][i], Fs[ci][j]], "row": row, "lrow": lrow, "aux": p == 2,
+                            "F": [Fs[ci][i], Fs[ci][j]], "V": [V[i], V[j]], "row": row, "lrow": lrow, "aux": p == 2,
                             "bed": bed.get(key, []), "agree": agree.get(key, [])})
         if nf > 2 and p == 2 and (exc is None or cn in multi):
-            evs.append({"ev": "Multi", "run": run, "chrom": ci, "p": p, "F": Fs[ci], "hist": multi.get(cn, [])})
+            evs.append({"ev": "Multi", "run": run, "chrom": ci, "p": p, "F": Fs[ci], "V": V, "hist": multi.get(cn, [])})
     return evs
 
 
@@ -449,18 +507,19 @@ def drive(sc):
     try:
         F0 = [c["F"] for c in sc["chroms"]]
         F1 = [_apply(c["F"], c["g"]) for c in sc["chroms"]]
+        Vs = [c.get("V") or _zero_kinds(c["F"]) for c in sc["chroms"]]
         allc = list(range(len(F0)))
         per = {}  # (chromosome, run) -> events
         for run, Fs, encs in ((0, F0, sc["enc0"]), (1, F1, sc["enc1"])):
-            res = _run(tmp, f"r{run}", p, nf, allc, Fs, encs, mav)
+            res = _run(tmp, f"r{run}", p, nf, allc, Fs, encs, mav, Vs)
             if res[4] is None:
                 for ci in allc:
-                    per[(ci, run)] = _events(run, p, nf, [ci], Fs, res, mav)
+                    per[(ci, run)] = _events(run, p, nf, [ci], Fs, res, mav, Vs)
                 continue
             # the batch failed: attribute the failure, chromosome by chromosome
             for ci in allc:
-                res = _run(tmp, f"r{run}c{ci}", p, nf, [ci], Fs, encs, mav)
-                per[(ci, run)] = _events(run, p, nf, [ci], Fs, res, mav)
+                res = _run(tmp, f"r{run}c{ci}", p, nf, [ci], Fs, encs, mav, Vs)
+                per[(ci, run)] = _events(run, p, nf, [ci], Fs, res, mav, Vs)
                 if res[4] is not None:
                     per[(ci, run)].append({"ev": "RunFailed", "run": run, "chrom": ci, "exc": res[4]["exc"],
                                            "where": res[4]["where"], "msg": res[4]["msg"]})
@@ -531,21 +590,22 @@ def _single_match_class(events, p, key):
     for e in events:
         if e.get("ev") != "Pair" or e["p"] <= 2:
             continue
-        blocks = _py_blocks(e["F"])
+        eF = _common(e["F"], e.get("V"))
+        blocks = _py_blocks(eF)
         if key == "lrow":
             m = max((len(b) for b in blocks), default=0)
             cands = []
             for b in blocks:
                 if len(b) == m:
-                    ham, dg = _py_ham_dg(e["F"], b, p)
+                    ham, dg = _py_ham_dg(eF, b, p)
                     if (ham, dg) == (e["lrow"]["ham"], e["lrow"]["dg"]):
-                        cands.append(_py_poly_switch_units(e["F"], b, p))
+                        cands.append(_py_poly_switch_units(eF, b, p))
             if not blocks or any(e["lrow"]["sw"] == v for v, _ in cands):
                 continue
             dev += 1
             explained += any(e["lrow"]["sw"] == v + (p - 1) and nm == 1 for v, nm in cands)
         else:
-            vals = [_py_poly_switch_units(e["F"], b, p) for b in blocks]
+            vals = [_py_poly_switch_units(eF, b, p) for b in blocks]
             want = sum(v for v, _ in vals)
             if e["row"]["sw"] == want:
                 continue
@@ -573,7 +633,8 @@ def signature(sc, events, clause):
             extra = ""
             if e["where"] == "compare_multiway":
                 Fs = [c["F"] for c in sc["chroms"]] if e["run"] == 0 else [_apply(c["F"], c["g"]) for c in sc["chroms"]]
-                extra = " no-variant-pair-on-which-all-phasings-agree=" + str(_all_agree_missing(Fs[e["chrom"]]))
+                extra = " no-variant-pair-on-which-all-phasings-agree=" + str(
+                    _all_agree_missing(_common(Fs[e["chrom"]], sc["chroms"][e["chrom"]].get("V"))))
             return f"ploidy={p} files={nf} {e['exc']} in {e['where']}{extra}"
         return f"ploidy={p} files={nf} worker crashed"
     if clause == "LongestBlockAgreementMatchesHamming":
@@ -617,9 +678,11 @@ MANIFEST = {
             "phasings, invariance under re-listing as an action property, agreement zeros = Hamming, recurrences = brute force), "
             "(b) enumerates the scenario space (phasing tuples x group elements), and (c) judges every row of --tsv-pairwise, "
             "--longest-block-tsv, --switch-error-bed and --tsv-multiway produced by the real run_compare on the generated VCFs "
-            "(PS/HP encodings), on the original and on the re-listed files, against the definitions and against each other.",
+            "(PS/HP encodings), on the original and on the re-listed files, against the definitions and against each other. "
+            "The files may carry different variants at the same position (SNV with another ALT base, insertion, deletion); the "
+            "trace spec restricts the phasings to the variants common to the compared files before applying the definitions.",
     "note": "trusted: TLC, Compare.tla, the driver's VCF writer/TSV parser; bounded: exhaustive up to 3 sites x 2 phase sets "
             "(diploid pairs), 7 sites single block, 3 sites triples, ploidy 3 <= 3 sites, ploidy 4 = 2 sites; beyond that seeded sampling "
-            "(<= 12 sites); bi-allelic variants only",
+            "(<= 12 sites); bi-allelic variants only; same-position allele conflicts are seeded samples (4 record kinds)",
     "technique": "TLA+ definitions + TLC model checking of their theorems + TLC-enumerated scenarios + TLC trace validation of the real command's outputs",
 }
